@@ -632,8 +632,9 @@ public:
     /**
      * @brief Enables or disables solo on a track
      * @param track Identifier of solo track, or max to disable
+     * @return true on success, false if there was no such track
      */
-    void setSoloTrack(size_t track);
+    bool setSoloTrack(size_t track);
 
     /**
      * @brief Set the song number of a multi-song file (such as XMI)
